@@ -56,7 +56,7 @@ type constOverride struct {
 // a handful of operations; the ones marked toVar can additionally be set per scenario.
 var constOverrides = map[string]map[string]constOverride{
 	"pkg/backend": {
-		"watchersChanCapacity": {"128", false},
+		"watchersChanCapacity": {"100", false}, // like the production value (100000) not a power of two: index arithmetic keeps its character
 		"historyCapacity":      {"64", false},
 		"eventBatchSize":       {"300", true},
 		"watchBuffer":          {"10000", true},
